@@ -285,7 +285,13 @@ class C17(Prop):
             k += 1
             if want(k):
                 rng = random.Random('%d/%d/c17n' % (seed, j))
-                src, _ = docgen.gen_doc(rng, common.cfg_general(j, 'quick'))
+                if j % 3 == 0:
+                    # token-kind alphabet, incl. bare (unbraced) arguments of
+                    # the fixed-signature commands
+                    src = strgen.random_string(
+                        rng, strgen.TOKENS + ['\\textbf', '\\label', '\\section', '\\def', ' x', ' y.'], 2, 8)
+                else:
+                    src, _ = docgen.gen_doc(rng, common.cfg_general(j, 'quick'))
                 yield k, {'w': 'noshare', 'src': src[:400]}
 
     def nontrivial(self, p):
